@@ -388,8 +388,8 @@ def curated_runs():
                     files={'beads1.fcs': dict(kind='beads', instrument='I1', seed=3), 'c1.fcs': cells(4, 1024), 'c2.fcs': cells(5, 4096),
                            'c3.fcs': cells(6, 256), 'c4.fcs': cells(7, 1024, 'F'), 'c5.fcs': dict(cells(10, 1024, 'F'), tiny_neg=True)},
                     samples=[srow(1, 'c1.fcs', {'FL1-H': 'MEF', 'FL2-H': 'Channel'}), srow(2, 'c2.fcs', {'FL1-H': 'RFI'}),
-                             srow(3, 'c4.fcs', {'FL2-H': 'a.u.'}, beads=None), srow(4, 'c3.fcs', {'FL1-H': 'Channel', 'FL3-H': 'rfi'}),
-                             srow(5, 'c5.fcs', {'FL1-H': 'RFI'}, beads=None)],
+                             srow(3, 'c4.fcs', {'FL2-H': 'a.u.'}, beads=None), srow(5, 'c5.fcs', {'FL1-H': 'RFI'}, beads=None),
+                             srow(4, 'c3.fcs', {'FL1-H': 'Channel', 'FL3-H': 'rfi'})],         # (the lowest resolution stays last)
                     np_seed=3, plot=False, hist=True, default_out=True, header_ws=True))
     # every row faulty except one; two clustering channels; plots on
     out.append(dict(arm='run', instruments=[i1],
